@@ -215,7 +215,7 @@ func (r *reporter) violate(class string, raw []byte, got, want interface{}, note
 	atomic.AddInt64(&r.violations, 1)
 	r.mu.Lock()
 	r.vclasses[class]++
-	if r.vclasses[class] <= 2 && len(r.vsamples) < 12 {
+	if (r.vclasses[class] <= 2 && len(r.vsamples) < 12) || os.Getenv("VERIF_ALL_SAMPLES") != "" {
 		r.vsamples = append(r.vsamples, violation{class, append(json.RawMessage{}, raw...), got, want, note})
 	}
 	r.mu.Unlock()
@@ -303,8 +303,9 @@ type tree struct {
 	K  string
 	Ty string // "s" string (default), "n" number, "b" bool
 	V  string
-	D map[string]*tree
-	A []*tree
+	To string // alias: the referenced name
+	D  map[string]*tree
+	A  []*tree
 }
 
 func (t *tree) UnmarshalJSON(b []byte) error {
@@ -312,13 +313,14 @@ func (t *tree) UnmarshalJSON(b []byte) error {
 		K  string            `json:"k"`
 		Ty string            `json:"ty"`
 		V  string            `json:"v"`
+		To string            `json:"to"`
 		D  json.RawMessage   `json:"d"`
-		A []json.RawMessage `json:"a"`
+		A  []json.RawMessage `json:"a"`
 	}
 	if err := json.Unmarshal(b, &raw); err != nil {
 		return err
 	}
-	t.K, t.V, t.Ty = raw.K, raw.V, raw.Ty
+	t.K, t.V, t.Ty, t.To = raw.K, raw.V, raw.Ty, raw.To
 	if t.K == "p" && t.Ty == "" {
 		t.Ty = "s"
 	}
@@ -341,6 +343,8 @@ func (t *tree) MarshalJSON() ([]byte, error) {
 	switch t.K {
 	case "nil":
 		return []byte(`{"k":"nil"}`), nil
+	case "alias":
+		return []byte(`{"k":"alias","to":"` + t.To + `"}`), nil
 	case "p":
 		v, _ := json.Marshal(t.V)
 		ty := t.Ty
@@ -391,6 +395,8 @@ func (t *tree) toGo() interface{} {
 	switch t.K {
 	case "nil":
 		return nil
+	case "alias":
+		return "${" + t.To + "}"
 	case "p":
 		return t.prim()
 	}
